@@ -666,6 +666,10 @@ type ExportBatch struct {
 func (be *BatchExporter) Export(chunks []*Chunk, callback func(ExportBatch) error) error {
 	exporter := NewExporterWithConfig(be.config)
 
+	if be.batchSize <= 0 {
+		return fmt.Errorf("invalid batch size %d", be.batchSize)
+	}
+
 	for i := 0; i < len(chunks); i += be.batchSize {
 		end := i + be.batchSize
 		if end > len(chunks) {
